@@ -512,3 +512,25 @@ Theorem C05_start_twice_observation :
   snd (fst (start s 0)) = [OWire 5 1 [6; 1; 17; 45; 1] [6; 1]] /\ c_pending (get (fst (fst (start s 0))) 0) = 2.
 Proof. exact ex_start_twice_sends_create_twice. Qed.
 Print Assumptions C05_start_twice_observation.
+
+(* ---------------------------------------------------------------- protocol generation of a session (wave 14) *)
+(* every accepted add_config binds the configuration to the CURRENT session: protocol generation (useV2 :=
+   Log._useV2 of this session), id, Crazyflie -- also when the same object was added in an earlier session
+   with another generation.  With C05_start_not_added_creates the creation messages of any add use the
+   command set and index width of the session in which the add happens. *)
+Theorem C05_accepted_binds_session : forall s h, valid_h s h = true -> snd (add_config s h) = AccAccepted ->
+  let s1 := fst (fst (add_config s h)) in
+  c_v2 (get s1 h) = s_v2 s /\ c_id (get s1 h) = s_counter s /\ c_cf (get s1 h) = true.
+Proof. exact accepted_binds_session. Qed.
+Print Assumptions C05_accepted_binds_session.
+
+(* V1 session, reconnect to V2 firmware with index 300, re-add: V2 create message with the 16-bit index; the
+   bind-once variant (seeded/C05-n) would build a legacy message and raise ValueError *)
+Theorem C05_bind_once_generation_refuted :
+  snd (fst (start (final init_st (firstn 6 ex_generation_history)) 0)) = [OWire 5 1 [0; 1; 17; 44] [0; 1]] /\
+  let s := final init_st ex_generation_history in
+  c_v2 (get s 0) = true /\ c_id (get s 0) = 2 /\
+  snd (fst (start s 0)) = [OWire 5 1 [6; 2; 17; 44; 1] [6; 2]] /\
+  create_msgs false (s_toc s) (c_id (get s 0)) (c_vars (get s 0)) = ([], Some ValueError).
+Proof. exact ex_generation_follows_session. Qed.
+Print Assumptions C05_bind_once_generation_refuted.
